@@ -40,15 +40,15 @@ var targetPkgs = []string{
 }
 
 var osExclude = set("IsNotExist", "IsExist", "IsPermission", "IsTimeout", "Getenv", "LookupEnv", "Environ",
-	"Getuid", "Geteuid", "Getgid", "Getegid", "Getpid", "Getppid", "Exit", "Expand", "ExpandEnv",
-	"NewSyscallError", "NewFile", "Hostname", "Getpagesize", "TempDir", "UserHomeDir", "UserCacheDir", "UserConfigDir",
+	"Getuid", "Geteuid", "Getgid", "Getegid", "Exit", "Expand", "ExpandEnv",
+	"NewSyscallError", "NewFile", "Getpagesize", "TempDir", "UserHomeDir", "UserCacheDir", "UserConfigDir",
 	"SameFile", "IsPathSeparator", "Getwd", "Executable", "Setenv", "Unsetenv", "Clearenv")
 var osFileExclude = set("Name", "Fd", "SyscallConn")
 var fsFuncs = set("ReadDir", "ReadFile", "Stat", "WalkDir", "Glob", "Sub")
 var ioFuncs = set("Copy", "CopyN", "CopyBuffer", "ReadAll", "ReadFull")
 var timeFuncs = set("Now", "Since", "Until", "Sleep", "After", "NewTimer", "NewTicker", "AfterFunc", "Tick")
 var fpFuncs = set("Walk", "WalkDir", "Glob", "EvalSymlinks", "Abs")
-var syscallExclude = set("Getuid", "Geteuid", "Getgid", "Getegid", "Getpid", "Getpagesize", "BytePtrFromString", "ByteSliceFromString")
+var syscallExclude = set("Getuid", "Geteuid", "Getgid", "Getegid", "Getpagesize", "BytePtrFromString", "ByteSliceFromString")
 
 func set(s ...string) map[string]bool {
 	m := map[string]bool{}
